@@ -81,15 +81,47 @@ Definition emits (Q : req -> Prop) (s s' : state) : Prop :=
 Definition busy_closed (P : tracker -> Prop) : Prop :=
   forall x b e sct, P x -> P (mkT (t_id x) (t_group x) (t_en x) b e (t_sc x) (t_fc x) (t_stl x) (t_ftl x) (t_ni x) (t_mi x) (t_scr x) sct).
 
+(* ---- invariants linking the tracker list, the request log and the queued result callback ---- *)
+
+Definition ids (s : state) : list nat := map t_id (trs s).
+
+
+(* latest_event is the event of the last announce handed to the tracker, unless a scrape came after it *)
+Definition Pev (l : list req) (t : tracker) : Prop :=
+  match newest_for (t_id t) l with
+  | Some r => t_ev t = r_ev r \/ t_ev t = EvScrape
+  | None => t_ev t = EvNone \/ t_ev t = EvScrape
+  end.
+
+(* while a result callback of a tracker is queued, no announce of that tracker is in flight *)
+Definition Ppend (p : option (nat * (bool * bool))) (t : tracker) : Prop :=
+  forall id k, p = Some (id, k) -> t_id t = id -> busy_ann t = false.
+
+(* a scrape is only handed to an idle, enabled, scrapable tracker whose last scrape is at least the gap ago *)
+Definition scrape_ok (e : Z * tracker) : Prop :=
+  let '(T, t) := e in
+  t_busy t = false /\ t_en t = true /\ t_scr t = true /\ (t_sct t + scrape_min_gap) * usec <= T.
+
+Definition J (s : state) : Prop :=
+  Forall (fun r => In (r_id r) (ids s)) (log s) /\
+  Forall (fun t => Pev (log s) t /\ Ppend (pend s) t) (trs s) /\
+  (pmark s <= length (log s))%nat /\
+  (forall id k, pend s = Some (id, k) ->
+     Forall (fun r => r_id r <> id) (firstn (length (log s) - pmark s) (log s))) /\
+  Forall scrape_ok (slog s).
+
 Definition keeps (s s' : state) : Prop :=
   now s' = now s /\ s_up s' = s_up s /\ s_comp s' = s_comp s /\ s_left s' = s_left s /\
   map t_group (trs s') = map t_group (trs s) /\
   (forall P, busy_closed P -> Forall P (trs s) -> Forall P (trs s')) /\
-  map t_id (trs s') = map t_id (trs s).
+  map t_id (trs s') = map t_id (trs s) /\
+  (J s -> J s').
 
 Definition frame (s s' : state) : Prop := fl s' = fl s /\ keeps s s'.
 
 Definition E (Q : req -> Prop) (s s' : state) : Prop := emits Q s s' /\ frame s s'.
+
+Ltac ssplit' := lazymatch goal with |- _ /\ _ => split; ssplit' | _ => idtac end.
 
 Lemma emits_same Q s s' : log s' = log s -> emits Q s s'.
 Proof. intros H. exists []. split; [rewrite H; reflexivity | constructor]. Qed.
@@ -105,16 +137,20 @@ Lemma emits_weaken (Q Q' : req -> Prop) s s' : (forall r, Q r -> Q' r) -> emits 
 Proof. intros W [n [H F]]. exists n. split; [assumption|]. eapply Forall_impl; eauto. Qed.
 
 Lemma keeps_refl s : keeps s s.
-Proof. unfold keeps. repeat split; auto. Qed.
+Proof. unfold keeps. ssplit'; auto. Qed.
 
 Lemma keeps_trans s1 s2 s3 : keeps s1 s2 -> keeps s2 s3 -> keeps s1 s3.
 Proof.
-  unfold keeps. intros (a&b&c&d&e&f&g) (a'&b'&c'&d'&e'&f'&g'). repeat split; try congruence. intros P HP H. auto.
+  unfold keeps. intros (a&b&c&d&e&f&g&h) (a'&b'&c'&d'&e'&f'&g'&h'). ssplit'; try congruence; auto.
 Qed.
 
+Lemma J_same s s' : trs s' = trs s -> log s' = log s -> pend s' = pend s -> pmark s' = pmark s -> slog s' = slog s -> J s -> J s'.
+Proof. intros a b c d e. unfold J, ids. rewrite a, b, c, d, e. auto. Qed.
+
 Lemma keeps_same_trs s s' :
-  trs s' = trs s -> now s' = now s -> s_up s' = s_up s -> s_comp s' = s_comp s -> s_left s' = s_left s -> keeps s s'.
-Proof. intros a b c d e. unfold keeps. rewrite a. repeat split; auto. Qed.
+  trs s' = trs s -> now s' = now s -> s_up s' = s_up s -> s_comp s' = s_comp s -> s_left s' = s_left s ->
+  log s' = log s -> pend s' = pend s -> pmark s' = pmark s -> slog s' = slog s -> keeps s s'.
+Proof. intros a b c d e f g h i. unfold keeps. ssplit'; auto; try (rewrite a; auto). apply J_same; assumption. Qed.
 
 Lemma frame_refl s : frame s s.
 Proof. split; [reflexivity | apply keeps_refl]. Qed.
@@ -140,8 +176,15 @@ Lemma update_timeout_same n s :
   s_left (update_timeout n s) = s_left s.
 Proof. unfold update_timeout. destruct (n =? 0); simpl; repeat split; reflexivity. Qed.
 
+Lemma update_timeout_j n s :
+  pend (update_timeout n s) = pend s /\ pmark (update_timeout n s) = pmark s /\ slog (update_timeout n s) = slog s.
+Proof. unfold update_timeout. destruct (n =? 0); simpl; ssplit'; reflexivity. Qed.
+
 Lemma frame_update_timeout n s : frame s (update_timeout n s).
-Proof. destruct (update_timeout_same n s) as (a&b&c&d&e&f&g). split; [assumption | apply keeps_same_trs; assumption]. Qed.
+Proof.
+  destruct (update_timeout_same n s) as (a&b&c&d&e&f&g). destruct (update_timeout_j n s) as (h&i&j).
+  split; [assumption | apply keeps_same_trs; assumption].
+Qed.
 
 Lemma E_update_timeout Q n s : E Q s (update_timeout n s).
 Proof. apply E_same; [apply update_timeout_same | apply frame_update_timeout]. Qed.
@@ -164,10 +207,49 @@ Lemma sent_weaken F T up comp lft sr ev (C C' : tracker -> list tracker -> Prop)
   (forall t l, C t l -> C' t l) -> sent F T up comp lft sr ev C r -> sent F T up comp lft sr ev C' r.
 Proof. intros W (a&b&c&d&e&f&g). exact (conj a (conj b (conj c (conj d (conj e (conj (W _ _ f) g)))))). Qed.
 
-Lemma send_event_E sr t ev s (C : tracker -> list tracker -> Prop) :
-  C t (trs s) -> E (sent (fl s) (now s) (s_up s) (s_comp s) (s_left s) sr ev C) s (send_event sr t ev s).
+(* the state after a request has actually been handed to the worker *)
+Definition sent_state (sr : src) (t : tracker) (ev : event) (s : state) : state :=
+  mkS (upd (trs s) (t_id t) (fun x => mkT (t_id x) (t_group x) (t_en x) true ev (t_sc x) (t_fc x) (t_stl x) (t_ftl x) (t_ni x) (t_mi x) (t_scr x) (t_sct x)))
+      (fl s) (tmo s) (now s) (s_up s) (s_comp s) (s_left s)
+      (mkR (now s) (t_id t) ev (Z.max (s_up s) 0) (Z.max (s_comp s) 0) (s_left s) (t_busy t) sr t (fl s) (trs s) :: log s)
+      (tsc s) (slog s)
+      (match hint s with h :: r => if Nat.eqb h (t_id t) then r else hint s | [] => [] end)
+      (match pend s with Some (i, _) => if Nat.eqb i (t_id t) then None else pend s | None => None end)
+      (pmark s).
+
+Lemma sent_state_J sr t ev s : In (t_id t) (ids s) -> event_eqb ev EvScrape = false -> J s -> J (sent_state sr t ev s).
 Proof.
-  intros HC. unfold send_event.
+  intros Hin Hnscr (Jk & Jt & Jm & Jp & Js). unfold J, sent_state, ids in *. simpl.
+  assert (Hids : map t_id (upd (trs s) (t_id t) (fun x => mkT (t_id x) (t_group x) (t_en x) true ev (t_sc x) (t_fc x) (t_stl x) (t_ftl x) (t_ni x) (t_mi x) (t_scr x) (t_sct x))) = map t_id (trs s))
+    by (apply upd_map; reflexivity).
+  ssplit'.
+  - rewrite Hids. constructor; [exact Hin | exact Jk].
+  - unfold upd. rewrite Forall_forall in *. intros y Hy. apply in_map_iff in Hy. destruct Hy as [x [E Hx]].
+    destruct (Jt x Hx) as [Pe Pp]. destruct (Nat.eqb (t_id x) (t_id t)) eqn:Eid; subst y.
+    + apply Nat.eqb_eq in Eid. split.
+      * unfold Pev, newest_for. simpl. rewrite Eid, Nat.eqb_refl. left. reflexivity.
+      * unfold Ppend. simpl. intros id k Hp Hid. destruct (pend s) as [[i k'] |]; [| discriminate].
+        destruct (Nat.eqb i (t_id t)) eqn:Ei; [discriminate |]. inversion Hp; subst. rewrite Eid, Nat.eqb_refl in Ei. discriminate.
+    + split.
+      * unfold Pev, newest_for in *. simpl. rewrite Nat.eqb_sym, Eid. exact Pe.
+      * unfold Ppend in *. intros id k Hp Hid. destruct (pend s) as [[i k'] |]; [| discriminate].
+        destruct (Nat.eqb i (t_id t)); [discriminate |]. eapply Pp; eauto.
+  - lia.
+  - intros id k Hp. destruct (pend s) as [[i k'] |] eqn:Hps; [| discriminate].
+    destruct (Nat.eqb i (t_id t)) eqn:Ei; [discriminate |]. inversion Hp; subst i k'.
+    assert (Hs : forall n m, (m <= n)%nat -> (match m with 0 => S n | S l => n - l end = S (n - m))%nat)
+      by (intros n m; destruct m; lia).
+    rewrite Hs by exact Jm. simpl.
+    constructor; [simpl; intros E; rewrite E, Nat.eqb_refl in Ei; discriminate | eapply Jp; eauto].
+  - exact Js.
+Qed.
+
+Lemma send_event_E sr t ev s (C : tracker -> list tracker -> Prop) :
+  C t (trs s) -> event_eqb ev EvScrape = false ->
+  E (sent (fl s) (now s) (s_up s) (s_comp s) (s_left s) sr ev C) s (send_event sr t ev s).
+Proof.
+  intros HC Hnscr. unfold send_event.
+  destruct (existsb (Nat.eqb (t_id t)) (map t_id (trs s))) eqn:Hmem; simpl; [| apply E_refl].
   destruct (is_usable t) eqn:Hu; simpl; [| apply E_refl].
   destruct (t_busy t && (event_eqb (t_ev t) ev || (negb (event_eqb (t_ev t) EvScrape) && event_eqb ev EvNone))) eqn:Hg; [apply E_refl |].
   assert (Hbusy : t_busy t = true -> ev <> t_ev t /\ (t_ev t <> EvScrape -> ev <> EvNone)).
@@ -175,23 +257,30 @@ Proof.
     apply event_eqb_false in H1. split; [congruence |]. intros Hs.
     destruct (event_eqb (t_ev t) EvScrape) eqn:E; [apply event_eqb_true in E; contradiction |].
     simpl in H2. apply event_eqb_false in H2. exact H2. }
+  assert (Hin : In (t_id t) (ids s)).
+  { apply existsb_exists in Hmem. destruct Hmem as [x [Hx Ex]]. apply Nat.eqb_eq in Ex. subst x. exact Hx. }
+  change (E (sent (fl s) (now s) (s_up s) (s_comp s) (s_left s) sr ev C) s (sent_state sr t ev s)).
   split.
   - eexists [_]. split; [reflexivity|]. constructor; [| constructor].
     unfold sent, base_ok, figures_ok; simpl. tauto.
-  - split; [reflexivity |]. unfold keeps; simpl. repeat split; auto.
+  - split; [reflexivity |]. unfold keeps. ssplit'; auto; try reflexivity.
     + apply upd_map. reflexivity.
     + intros P HP H. apply upd_Forall; [| assumption]. intros x Hx. apply HP. assumption.
     + apply upd_map. reflexivity.
+    + apply sent_state_J; assumption.
 Qed.
 
-Lemma fold_send_E sr ev (C : tracker -> Prop) l : forall s F T up comp lft,
+Lemma cse_not_scrape f : event_eqb (current_send_event f) EvScrape = false.
+Proof. unfold current_send_event. destruct (f_update f), (f_completed f), (f_start f), (f_stop f); reflexivity. Qed.
+
+Lemma fold_send_E sr ev (C : tracker -> Prop) l : event_eqb ev EvScrape = false -> forall s F T up comp lft,
   fl s = F -> now s = T -> s_up s = up -> s_comp s = comp -> s_left s = lft ->
   (forall t, In t l -> C t) ->
   E (sent F T up comp lft sr ev (fun t _ => C t)) s (fold_left (fun s t => send_event sr t ev s) l s).
 Proof.
-  induction l as [| t l IH]; intros s F T up comp lft HF HT Hu Hc Hl HC; simpl.
+  intros Hns. induction l as [| t l IH]; intros s F T up comp lft HF HT Hu Hc Hl HC; simpl.
   - apply E_refl.
-  - pose proof (send_event_E sr t ev s (fun t _ => C t) (HC t (or_introl eq_refl))) as H1.
+  - pose proof (send_event_E sr t ev s (fun t _ => C t) (HC t (or_introl eq_refl)) Hns) as H1.
     rewrite HF, HT, Hu, Hc, Hl in H1.
     eapply E_trans; [exact H1|].
     destruct H1 as [_ (a&b&c&d&e&_)].
@@ -250,11 +339,11 @@ Definition timer_sent (s : state) (l0 : list tracker) (r : req) : Prop :=
   sent (fl s) (now s) (s_up s) (s_comp s) (s_left s) SrcTimer (current_send_event (fl s))
        (fun t l => timer_C (fl s) (now s / usec) t l /\ (normal_mode (fl s) -> l = l0)) r.
 
-Lemma timeout_groups_E fuel ev : forall rest next s F T up comp lft,
+Lemma timeout_groups_E fuel ev : event_eqb ev EvScrape = false -> forall rest next s F T up comp lft,
   fl s = F -> now s = T -> s_up s = up -> s_comp s = comp -> s_left s = lft ->
   E (sent F T up comp lft SrcTimer ev (fun t _ => timer_ok (T / usec) t)) s (fst (timeout_groups fuel ev rest next s)).
 Proof.
-  induction fuel as [| fuel IH]; intros rest next s F T up comp lft HF HT Hu Hc Hl; simpl.
+  intros Hns. induction fuel as [| fuel IH]; intros rest next s F T up comp lft HF HT Hu Hc Hl; simpl.
   - apply E_refl.
   - destruct rest as [| itr rest']; simpl; [apply E_refl |].
     destruct (has_active_ann_in_group (t_group itr) (trs s)); [apply IH; assumption |].
@@ -268,13 +357,13 @@ Proof.
         - inversion Hpp; subst h. eapply pick_hinted_zero; eauto.
         - inversion Hpp; subst q. apply find_preferred_zero in Hfp0. destruct Hfp0 as [E0 | E0]; [discriminate | exact E0]. }
       rewrite Hn in Hfp. apply ntp_timer_ok in Hfp.
-      pose proof (send_event_E SrcTimer p ev s (fun t _ => timer_ok (T / usec) t) Hfp) as H1.
+      pose proof (send_event_E SrcTimer p ev s (fun t _ => timer_ok (T / usec) t) Hfp Hns) as H1.
       rewrite HF, HT, Hu, Hc, Hl in H1.
       eapply E_trans; [exact H1 |]. destruct H1 as [_ (a&b&c&d&e&_)].
       apply IH; congruence.
     + destruct (negb (next_timeout_promiscuous (now_s s) itr =? 0)) eqn:Hz; [apply IH; assumption |].
       apply negb_false_iff in Hz. apply Z.eqb_eq in Hz. rewrite Hn in Hz. apply ntp_timer_ok in Hz.
-      pose proof (send_event_E SrcTimer itr ev s (fun t _ => timer_ok (T / usec) t) Hz) as H1.
+      pose proof (send_event_E SrcTimer itr ev s (fun t _ => timer_ok (T / usec) t) Hz Hns) as H1.
       rewrite HF, HT, Hu, Hc, Hl in H1.
       eapply E_trans; [exact H1 |]. destruct H1 as [_ (a&b&c&d&e&_)].
       apply IH; congruence.
@@ -297,7 +386,7 @@ Proof.
   destruct (f_promisc (fl s1) || f_requesting (fl s1)) eqn:Hmode.
   - assert (Hnm : ~ normal_mode (fl s)).
     { unfold normal_mode. rewrite Hfl in Hmode. intros [a b]. rewrite a, b in Hmode. discriminate. }
-    pose proof (timeout_groups_E (length (trs s1)) (current_send_event (fl s1)) (trs s1) uint32_max s1
+    pose proof (timeout_groups_E (length (trs s1)) (current_send_event (fl s1)) (cse_not_scrape _) (trs s1) uint32_max s1
                   (fl s) (now s) (s_up s) (s_comp s) (s_left s) Hfl Hnow eq_refl eq_refl eq_refl) as H.
     destruct (timeout_groups (length (trs s1)) (current_send_event (fl s1)) (trs s1) uint32_max s1) as [s' next].
     simpl in H.
@@ -312,7 +401,7 @@ Proof.
     + apply Z.leb_le in Hle. unfold now_s in Hle. rewrite Hnow in Hle.
       pose proof (atn_timer_ok _ _ Hle) as Hto.
       apply (send_event_E SrcTimer t (current_send_event (fl s1)) s1
-               (fun t l => timer_C (fl s) (now s / usec) t l /\ (normal_mode (fl s) -> l = trs s))).
+               (fun t l => timer_C (fl s) (now s / usec) t l /\ (normal_mode (fl s) -> l = trs s))); [| apply cse_not_scrape].
       split; [split; [exact Hto | intros _; rewrite Htrs in Hfn; rewrite Htrs; auto] | intros _; exact Htrs].
     + apply E_update_timeout.
 Qed.
@@ -356,7 +445,7 @@ Proof.
     assert (Hk2 : keeps s s2) by (eapply keeps_trans; [exact Hk1 | apply keeps_ctl_close]).
     destruct (filter is_usable (trs s2)) as [| a rest].
     { destruct Hf2 as (a&b&c&d&e). ssplit; auto; try apply Hk2. apply emits_same; reflexivity. }
-    pose proof (send_event_E SrcStart a EvStarted s2 (fun _ _ => True) I) as [Hem (hfl & hk)].
+    pose proof (send_event_E SrcStart a EvStarted s2 (fun _ _ => True) I eq_refl) as [Hem (hfl & hk)].
     set (s3 := send_event SrcStart a EvStarted s2) in *.
     assert (Hsite : emits (fun r => site r /\ r_src r = SrcStart /\ ctxq s r) s s3).
     { apply emits_trans with (s2 := s2); [apply emits_same; reflexivity |].
@@ -368,6 +457,7 @@ Proof.
     destruct rest.
     + rewrite hfl. ssplit; auto; apply Hk3.
     + destruct (update_timeout_same start_promisc_timeout (set_promisc s3)) as (u1&u2&u3&u4&u5&u6&u7).
+      destruct (update_timeout_j start_promisc_timeout (set_promisc s3)) as (u8&u9&u10).
       rewrite u1. simpl. rewrite hfl.
       match goal with |- mask_excl ?f /\ _ => assert (G1 : mask_excl f) by (unfold mask_excl in *; simpl; exact a2) end.
       assert (G2 : keeps s (update_timeout start_promisc_timeout (set_promisc s3)))
@@ -377,10 +467,10 @@ Proof.
       ssplit; auto.
 Qed.
 
-Lemma send_to_in_use_E sr ev s :
+Lemma send_to_in_use_E sr ev s : event_eqb ev EvScrape = false ->
   E (sent (fl s) (now s) (s_up s) (s_comp s) (s_left s) sr ev (fun t _ => is_in_use t = true)) s (send_to_in_use sr ev s).
 Proof.
-  unfold send_to_in_use. apply fold_send_E; auto.
+  intros Hns. unfold send_to_in_use. apply fold_send_E; auto.
   intros t Hin. apply filter_In in Hin. apply Hin.
 Qed.
 
@@ -395,7 +485,7 @@ Proof.
   destruct (negb (f_active (fl s1)) || negb (has_usable (trs s1))).
   - destruct Hm1. ssplit; auto; try apply Hk1. apply emits_same; reflexivity.
   - set (s2 := ctl_close (set_fl s1 _)).
-    pose proof (send_to_in_use_E SrcStop EvStopped s2) as [Hem (hfl & hk)].
+    pose proof (send_to_in_use_E SrcStop EvStopped s2 eq_refl) as [Hem (hfl & hk)].
     ssplit.
     + rewrite hfl. subst s2 s1. unfold ctl_close, mask_excl. simpl. auto.
     + rewrite hfl. reflexivity.
@@ -418,7 +508,7 @@ Proof.
   destruct (negb (f_active (fl s1)) || negb (has_usable (trs s1))).
   - destruct Hm1 as (a&b&c). ssplit; auto; try apply Hk1. apply emits_same; reflexivity.
   - set (s2 := ctl_close s1).
-    pose proof (send_to_in_use_E SrcCompleted EvCompleted s2) as [Hem (hfl & hk)].
+    pose proof (send_to_in_use_E SrcCompleted EvCompleted s2 eq_refl) as [Hem (hfl & hk)].
     ssplit.
     + rewrite hfl. subst s2 s1. unfold ctl_close, mask_excl. simpl. auto.
     + rewrite hfl. reflexivity.
@@ -456,7 +546,7 @@ Proof.
   destruct H1 as (Hm1 & Hs1 & Ha1 & Hl1 & Hk1).
   destruct (filter is_usable (trs s1)) as [| a rest].
   { ssplit; try apply Hs1; auto; try apply Hk1; try congruence. apply emits_same; assumption. }
-  pose proof (send_event_E SrcUpdate a (current_send_event (fl s1)) s1 (fun _ _ => True) I) as [Hem (hfl & hk)].
+  pose proof (send_event_E SrcUpdate a (current_send_event (fl s1)) s1 (fun _ _ => True) I (cse_not_scrape _)) as [Hem (hfl & hk)].
   rewrite hfl.
   assert (G2 : keeps s (send_event SrcUpdate a (current_send_event (fl s1)) s1))
     by (eapply keeps_trans; [exact Hk1 | exact hk]).
